@@ -70,7 +70,26 @@ Verdicts(op) ==
     { [v EXCEPT !.clause = v.clause] @@ [kind |-> IF v.dev \in EnabledDevs THEN "known" ELSE "viol"]
         : v \in Judge(op) }
 
-Init == oid \in DOMAIN Ops /\ done = FALSE /\ TLCSet(1, {})
+\* Restart under another locale (a service started with LANG=C): File.locale[i] =
+\*   [kind, res (per operation: "" acknowledged / exception name), final (what the restarted
+\*    process reads), want_props, want_names]  - every acknowledged write is present, every
+\* refused one left nothing, the collection opens and reads completely
+JudgeLocale(r, i) ==
+    LET f == r.final
+        clause ==
+           IF ~f.opens THEN "does-not-open"
+           ELSE IF ~f.readable THEN "member-unreadable"
+           ELSE IF ~f.fsck THEN "reference-to-missing-object"
+           ELSE IF f.props # r.want_props THEN "property-differs-from-the-acknowledged-writes"
+           ELSE IF DOMAIN f.vis # {r.want_names[k] : k \in DOMAIN r.want_names} THEN "members-differ-from-the-acknowledged-writes"
+           ELSE "ok"
+        dev == "crash:" \o r.kind \o ":restart-under-another-locale:" \o clause
+    IN IF clause = "ok" THEN {}
+       ELSE {[id |-> 100000 + i, k |-> 0, clause |-> clause, dev |-> dev, torn |-> "", err |-> f.err,
+              kind |-> IF dev \in EnabledDevs THEN "known" ELSE "viol"]}
+LocaleVerdicts == IF "locale" \in DOMAIN File THEN UNION {JudgeLocale(File.locale[i], i) : i \in DOMAIN File.locale} ELSE {}
+
+Init == oid \in DOMAIN Ops /\ done = FALSE /\ TLCSet(1, LocaleVerdicts)
 Next == /\ ~done
         /\ TLCSet(1, TLCGet(1) \cup Verdicts(Ops[oid]))
         /\ done' = TRUE /\ UNCHANGED oid
